@@ -55,7 +55,7 @@ def _walk_blocks(stmts):
                 yield from _walk_blocks(h.body)
 
 
-def select(func: ast.FunctionDef, start: str | None, end: str | None):
+def select(func: ast.FunctionDef, start: str | None, end: str | None, nth: int | None = None, of: int | None = None):
     """statements of one block of `func` from the first whose first source line matches
     `start` through the first following one matching `end` (both regexes on
     the unparsed statement's first line).  None/None = whole body."""
@@ -67,9 +67,15 @@ def select(func: ast.FunctionDef, start: str | None, end: str | None):
             first = ast.unparse(s).split("\n")[0]
             if re.search(start, first):
                 hits.append((block, i))
-    if len(hits) != 1:
-        raise TranslateError(f"start pattern {start!r} matched {len(hits)} statements in {func.name}")
-    block, i = hits[0]
+    if nth is not None:
+        # (additive) the nth (0-based, document order) of exactly `of` matching statements
+        if (of is not None and len(hits) != of) or not 0 <= nth < len(hits):
+            raise TranslateError(f"start pattern {start!r} matched {len(hits)} statements in {func.name}, expected {of} (nth={nth})")
+        block, i = hits[nth]
+    else:
+        if len(hits) != 1:
+            raise TranslateError(f"start pattern {start!r} matched {len(hits)} statements in {func.name}")
+        block, i = hits[0]
     if end is None:
         return [block[i]]
     for j in range(i, len(block)):
@@ -80,10 +86,12 @@ def select(func: ast.FunctionDef, start: str | None, end: str | None):
 
 
 class Tr:
-    def __init__(self, types: dict, subst: dict, consts: dict | None = None):
+    def __init__(self, types: dict, subst: dict, consts: dict | None = None, subst_re: dict | None = None, subst_calls: dict | None = None):
         self.types = dict(types)  # name -> 'Z'|'Q'|'bool'
         self.subst = {self._norm(k): v for k, v in subst.items()}
         self.consts = consts or {}
+        self.subst_re = dict(subst_re or {})        # (additive) regex fully matching the unparsed expression -> name
+        self.subst_calls = dict(subst_calls or {})  # (additive) regex fully matching the unparsed callee of a Call -> name, whatever the arguments
 
     @staticmethod
     def _norm(src: str) -> str:
@@ -111,6 +119,18 @@ class Tr:
             if v not in self.types:
                 raise TranslateError(f"substituted name {v} has no type")
             return v, self.types[v]
+        for pat, v in self.subst_re.items():
+            if re.fullmatch(pat, key, re.S):
+                if v not in self.types:
+                    raise TranslateError(f"substituted name {v} has no type")
+                return v, self.types[v]
+        if isinstance(n, ast.Call):
+            callee = ast.unparse(n.func)
+            for pat, v in self.subst_calls.items():
+                if re.fullmatch(pat, callee, re.S):
+                    if v not in self.types:
+                        raise TranslateError(f"substituted name {v} has no type")
+                    return v, self.types[v]
         if isinstance(n, ast.Constant):
             if n.value is True:
                 return "true", "bool"
@@ -382,9 +402,9 @@ def translate_fragment(src_text: str, spec: dict) -> str:
     outputs [(name, ty)] (statement fragment) or ret ty (function fragment)."""
     tree = ast.parse(src_text)
     func = _find_func(tree, spec["qual"])
-    stmts = select(func, spec.get("start"), spec.get("end"))
+    stmts = select(func, spec.get("start"), spec.get("end"), spec.get("nth"), spec.get("of"))
     types = {n: t for n, t in spec["inputs"]}
-    tr = Tr(types, spec.get("subst", {}))
+    tr = Tr(types, spec.get("subst", {}), None, spec.get("subst_re"), spec.get("subst_calls"))
     args = " ".join(f"({n} : {COQ_TY[t]})" for n, t in spec["inputs"])
     if spec.get("kind") == "test":
         # the condition of the selected while / if statement
@@ -392,6 +412,45 @@ def translate_fragment(src_text: str, spec: dict) -> str:
             raise TranslateError("kind=test needs exactly one while/if statement")
         body = tr.coerce(tr.expr(stmts[0].test), "bool")
         return f"Definition {spec['name']} {args} : bool :=\n  {body}.\n"
+    if spec.get("kind") in ("callarg", "subscript_index"):
+        # (additive) callarg: argument `arg` (int position, keyword name, "@name" = the callee itself, "@receiver" = the object of a
+        #   method call) of the call(s) in the selected statement whose unparsed callee fully matches spec["call"];
+        # subscript_index: element `axis` of the index tuple of the subscript(s) whose unparsed value fully matches spec["array"].
+        # Several matches must be textually identical.  With spec["names"] the selected text is mapped to an integer code
+        # (unknown text -> 0) instead of being translated: this turns "which function / key / object" into a checkable value.
+        if len(stmts) != 1:
+            raise TranslateError(f"kind={spec['kind']} needs exactly one statement")
+        picked = []
+        for node in ast.walk(stmts[0]):
+            if spec["kind"] == "callarg" and isinstance(node, ast.Call) and re.fullmatch(spec["call"], ast.unparse(node.func), re.S):
+                a = spec["arg"]
+                if a == "@name":
+                    picked.append(node.func)
+                elif a == "@receiver":
+                    if not isinstance(node.func, ast.Attribute):
+                        raise TranslateError("@receiver of a call that is not a method call")
+                    picked.append(node.func.value)
+                elif isinstance(a, int):
+                    if a >= len(node.args) or any(isinstance(x, ast.Starred) for x in node.args[: a + 1]):
+                        raise TranslateError(f"call {ast.unparse(node.func)} has no positional argument {a}")
+                    picked.append(node.args[a])
+                else:
+                    kws = [k.value for k in node.keywords if k.arg == a]
+                    if len(kws) != 1:
+                        raise TranslateError(f"call {ast.unparse(node.func)} has no keyword argument {a}")
+                    picked.append(kws[0])
+            if spec["kind"] == "subscript_index" and isinstance(node, ast.Subscript) and re.fullmatch(spec["array"], ast.unparse(node.value), re.S):
+                idx = node.slice.elts if isinstance(node.slice, ast.Tuple) else [node.slice]
+                if spec["axis"] >= len(idx):
+                    raise TranslateError(f"subscript of {ast.unparse(node.value)} has no axis {spec['axis']}")
+                picked.append(idx[spec["axis"]])
+        if not picked or len({ast.unparse(x) for x in picked}) != 1:
+            raise TranslateError(f"{spec['kind']} selected {len(picked)} expressions in {spec['name']}")
+        if "names" in spec:
+            code = int(spec["names"].get(ast.unparse(picked[0]), 0))
+            return f"Definition {spec['name']} {args} : Z :=\n  ({code})%Z.\n"
+        body = tr.coerce(tr.expr(picked[0]), spec["ret"])
+        return f"Definition {spec['name']} {args} : {COQ_TY[spec['ret']]} :=\n  {body}.\n"
     if spec.get("kind") == "subexpr":
         # (additive) the unique sub-expression of the selected single statement whose unparsed
         # text fully matches the regex spec["pick"]; outermost match when matches are nested
@@ -409,6 +468,9 @@ def translate_fragment(src_text: str, spec: dict) -> str:
         _visit(stmts[0])
         if not hits or len({ast.unparse(h) for h in hits}) != 1:  # several textually identical occurrences are one expression
             raise TranslateError(f"pick pattern {spec['pick']!r} matched {len(hits)} sub-expressions")
+        if "names" in spec:
+            code = int(spec["names"].get(ast.unparse(hits[0]), 0))
+            return f"Definition {spec['name']} {args} : Z :=\n  ({code})%Z.\n"
         body = tr.coerce(tr.expr(hits[0]), spec["ret"])
         return f"Definition {spec['name']} {args} : {COQ_TY[spec['ret']]} :=\n  {body}.\n"
     if spec.get("kind") == "expr":
